@@ -918,6 +918,8 @@ package bkl
 //@   ensures (=> (not (isErr err)) (and (>= res allocTop) (not (= res 0))))
 //@   ensures (=> (not (isErr err)) (= (file.depth res) (ite (= child 0) 0 (+ (old (file.depth child)) 1))))
 //@   ensures (=> (not (isErr err)) (<= (file.depth res) 1000))
+//@   ensures (=> (not (isErr err)) (= (file.root res) (Parser.rootPath p)))                                                            [C18]
+//@   ensures (forall ((r Int)) (=> (< r allocTop) (= (file.root r) (old (file.root r)))))
 //@   ensures (forall ((r Int)) (=> (< r allocTop) (= (file.depth r) (old (file.depth r)))))
 //@   loop 1
 //@     invariant (freshDocs (file.docs f) (old allocTop) allocTop)
@@ -1307,16 +1309,25 @@ package bkl
 //@     invariant ((_ is Slice) ret)
 //@     invariant (= (sapp (sitems ret) (globSel rest patDots)) (globSel (sitems matches) patDots))
 //
+//@ func file.insideRoot(f, paths) (res)
+//@   property C18, C03
+//@   uses sappNil, ssnocApp
+//@   ensures (= res (Slice (visL (file.root f) (sitems paths))))                                                                             [C18] [C03]
+//@   loop 1
+//@     invariant ((_ is Slice) ret)
+//@     invariant (= (sapp (sitems ret) (visL (file.root f) rest)) (visL (file.root f) (sitems paths)))
+//
 //@ func file.toAbsolutePaths(f, paths) (res, err)
 //@   propagates all   [C08] [C20] [C07] [C03]
 //@   property C03
-//@   uses sappNil, sappAssoc
-//@   ensures (= (isErr err) (absBad (pathDir (file.path f)) (sitems paths)))                                                                [C03] [C18]
-//@   ensures (=> (not (isErr err)) (= res (Slice (absList (pathDir (file.path f)) (sitems paths)))))                                        [C03] [C18]
+//@   uses sappNil, sappAssoc, absListVis
+//@   ensures (= (isErr err) (absBad (file.root f) (pathDir (file.path f)) (sitems paths)))                                                                [C03] [C18]
+//@   ensures (=> (not (isErr err)) (= res (Slice (absList (file.root f) (pathDir (file.path f)) (sitems paths)))))                                        [C03] [C18]
+//@   ensures (=> (not (isErr err)) (allVis (file.root f) (sitems res)))                                                                      [C18] [follows]
 //@   loop 1
 //@     invariant ((_ is Slice) ret)
-//@     invariant (= (absBad (pathDir (file.path f)) rest) (absBad (pathDir (file.path f)) (sitems paths)))
-//@     invariant (= (sapp (sitems ret) (absList (pathDir (file.path f)) rest)) (absList (pathDir (file.path f)) (sitems paths)))
+//@     invariant (= (absBad (file.root f) (pathDir (file.path f)) rest) (absBad (file.root f) (pathDir (file.path f)) (sitems paths)))
+//@     invariant (= (sapp (sitems ret) (absList (file.root f) (pathDir (file.path f)) rest)) (absList (file.root f) (pathDir (file.path f)) (sitems paths)))
 //
 //@ func file.parentsFromSymlink(f) (res, err)
 //@   propagates all   [C08]
@@ -1342,8 +1353,8 @@ package bkl
 //@   uses sappNil, sappAssoc, ssnocApp, rdistinctApp, rmemApp
 //@   requires (rdistinct (file.docs f))
 //@   requires (forall ((r Int)) (=> (rmem r (file.docs f)) (not (= r 0))))
-//@   ensures (= (isErr err) (dirE (old (heap Document.Data)) (file.docs f) (pathDir (file.path f))))                                       [C03]
-//@   ensures (=> (not (isErr err)) (= res (dirS (old (heap Document.Data)) (file.docs f) (pathDir (file.path f)))))                        [C03]
+//@   ensures (= (isErr err) (dirE (old (heap Document.Data)) (file.docs f) (file.root f) (pathDir (file.path f))))                                       [C03]
+//@   ensures (=> (not (isErr err)) (= res (dirS (old (heap Document.Data)) (file.docs f) (file.root f) (pathDir (file.path f)))))                        [C03]
 //@   loop 1
 //@     invariant ((_ is Slice) parents)
 //@     invariant (forall ((r Int)) (=> (not (rmem r done)) (= (Document.Data r) (old (Document.Data r)))))
@@ -1356,8 +1367,8 @@ package bkl
 //@   property C03
 //@   requires (rdistinct (file.docs f))
 //@   requires (forall ((r Int)) (=> (rmem r (file.docs f)) (not (= r 0))))
-//@   ensures (= (isErr err) (parentsE (old (heap Document.Data)) (file.docs f) (old (file.path f))))                                       [C03]
-//@   ensures (=> (not (isErr err)) (= res (parentsS (old (heap Document.Data)) (file.docs f) (old (file.path f)))))                        [C03]
+//@   ensures (= (isErr err) (parentsE (old (heap Document.Data)) (file.docs f) (file.root f) (old (file.path f))))                                       [C03]
+//@   ensures (=> (not (isErr err)) (= res (parentsS (old (heap Document.Data)) (file.docs f) (file.root f) (old (file.path f)))))                        [C03]
 //@   ensures (= (file.docs f) (old (file.docs f)))
 
 //@ func NewEvalContext() (res)
